@@ -333,19 +333,21 @@ def _check_delay(ctx: Ctx, m: pf.Module):
     ctx.need(defaults == ['DEFAULT_BASE_DELAY_MS', 'DEFAULT_MAX_DELAY_MS'], f'delay_ms_for_try defaults changed: {defaults}')
     base, mx, K = consts['DEFAULT_BASE_DELAY_MS'], consts['DEFAULT_MAX_DELAY_MS'], consts['LOG_2_MAX_MULTIPLIER']
     ctx.need(base >= 1 and mx >= 1 and 0 <= K <= 62, 'delay constants out of the analysed range')
-    # tries may only be used through a clamp min(tries, <const>) so that finitely many cases are exhaustive
+    # tries may only be used through a clamp min(tries, .., <const>, ..) so that finitely many cases are exhaustive
     uses = [n for n in ast.walk(fn) if isinstance(n, ast.Name) and n.id == 'tries' and isinstance(n.ctx, ast.Load)]
     par = {c: p for p in ast.walk(fn) for c in ast.iter_child_nodes(p)}
     clamp: Optional[int] = None
     for u in uses:
         p = par.get(u)
-        if isinstance(p, ast.Call) and pf.dotted(p.func) == 'min' and len(p.args) == 2:
-            other = [a for a in p.args if a is not u][0]
-            if isinstance(other, ast.Name) and other.id in consts:
-                clamp = consts[other.id] if clamp is None else min(clamp, consts[other.id])
-                continue
-            if isinstance(other, ast.Constant) and isinstance(other.value, int):
-                clamp = other.value if clamp is None else min(clamp, other.value)
+        if isinstance(p, ast.Call) and pf.dotted(p.func) == 'min' and len(p.args) >= 2 and not p.keywords:
+            ks = []
+            for other in p.args:
+                if isinstance(other, ast.Name) and other.id in consts:
+                    ks.append(consts[other.id])
+                elif isinstance(other, ast.Constant) and isinstance(other.value, int) and not isinstance(other.value, bool):
+                    ks.append(other.value)
+            if ks:
+                clamp = min(ks) if clamp is None else min(clamp, min(ks))
                 continue
         clamp = None
         break
@@ -353,10 +355,12 @@ def _check_delay(ctx: Ctx, m: pf.Module):
     exhaustive = clamp is not None
     bad = []
     samples = []
+    over_max = []
+    top = None
     for t in range(1, hi_try + 1):
         env = {'tries': absdom.Interval(t, t), 'base_delay_ms': absdom.Interval(base, base), 'max_delay_ms': absdom.Interval(mx, mx)}
         env.update({k: absdom.Interval(v, v) for k, v in consts.items()})
-        got = absdom.eval_straightline(fn, env)
+        got = cf.eval_straightline_int(fn, env)
         C = base * (2 ** min(t, 62))
         want = absdom.Interval(min(C // 2, mx), min(C, mx))
         if t <= 4 or t == hi_try:
@@ -371,6 +375,10 @@ def _check_delay(ctx: Ctx, m: pf.Module):
             ok = got == want
         if not ok:
             bad.append((t, repr(got), repr(want)))
+        if got.hi > mx:
+            over_max.append((t, repr(got), repr(want), got.hi))
+        if top is None or got.hi >= top[3]:
+            top = (t, repr(got), repr(want), got.hi)
     cons = f'{F}::delay_ms_for_try'
     if bad:
         t, g, w = bad[0]
@@ -378,6 +386,32 @@ def _check_delay(ctx: Ctx, m: pf.Module):
                 f'({len(bad)} try counts wrong)', m.path, fn.lineno, extra=bad[:10])
     else:
         ctx.ok('R3', cons, {'try_counts': hi_try, 'exhaustive_by_clamp': exhaustive, 'samples': samples})
+    # ---- "never longer than the maximum", for EVERY value of the parameters: the returned value must be bounded by the max_delay_ms
+    # parameter through a symbolic derivation (min against the parameter, or built from values so bounded by operations that do not
+    # increase them).  Capping an ingredient (the exponent, the ceiling) "at the maximum" and dropping the final clamp is the mistake.
+    cons2 = f'{F}::delay_ms_for_try::never longer than max_delay_ms'
+    CAP = 'max_delay_ms'
+    rets = [r for r in pf.walk_shallow(fn) if isinstance(r, ast.Return)]
+    ctx.need(rets and all(r.value is not None for r in rets), 'delay_ms_for_try: bare return')
+    unclamped = [r for r in rets if not any(b.below(CAP) for b in cf.upper_bounds(fn, r.value))]
+    over = [(t, g, w) for t, g, w, hi in over_max]
+    if not unclamped:
+        ctx.ok('R3', cons2, {'returns': len(rets), 'bound': f'every returned value is derived to be <= {CAP}'})
+    else:
+        r = unclamped[0]
+        shown = pf.nsrc(pf.expand_locals(fn, r.value))
+        if not any(cf.depends_on(fn, r.value, CAP) for r in unclamped):
+            t, g, w, hi = top
+            ctx.bad('R3', cons2, f'`{pf.nsrc(r)}` (= `{shown[:160]}`) does not depend on the `{CAP}` parameter at all: a caller-chosen maximum is ignored, e.g. '
+                    f'delay_ms_for_try({t}, max_delay_ms={max(hi // 2, 1)}) still ranges up to {hi} ms (callers pass 5000 / 15000 / 30000)', m.path, r.lineno)
+        elif over:
+            t, g, w = over[0]
+            ctx.bad('R3', cons2, f'`{pf.nsrc(r)}` is not clamped by `{CAP}`: no `min(.., {CAP})` (or equivalent bound) applies to the returned value `{shown[:200]}`; an ingredient '
+                    f'capped "at the maximum" does not cap the result - for tries={t} (defaults base={base}, max={mx}) the delay ranges over {g} ms, above the maximum of {mx} ms '
+                    f'(documented band {w})', m.path, r.lineno, extra=over[:10])
+        else:
+            raise AnalysisError(f'delay_ms_for_try: `{pf.nsrc(r)}` is not derivably bounded by `{CAP}` for every (base_delay_ms, max_delay_ms) (upper bounds found: '
+                                f'{[b.show() for b in cf.upper_bounds(fn, r.value)][:4]}) and the interval evaluation at the default parameters shows no excess: not decided')
     ctx.extra_cov['delay_band_samples'] = samples
     return hi_try, base, mx
 
